@@ -489,6 +489,56 @@ def S_C15e():
     return bool(np.asarray(a.data_per_point['c'][0]).max() == 77 or np.asarray(a.data_per_streamline['m'][0]).max() == 77)
 
 
+def _c15_seq(vals):
+    from nibabel.streamlines.array_sequence import ArraySequence
+    return ArraySequence([np.array([[v, v] for v in e], dtype='f8').reshape(len(e), 2) for e in vals])
+
+
+def S_C15f():
+    # a refused append (trailing-shape mismatch) must not detach the view it was applied to
+    p = _c15_seq([[1, 2], [3], [4, 5, 6]])
+    v = p[1:]
+    try:
+        v.append(np.zeros((1, 5)))
+    except ValueError:
+        pass
+    v[0] = 99
+    return bool(v._data is not p._data or np.asarray(p[1])[0, 0] != 99)
+
+
+def S_C15g():
+    # shrink_data() on a view must not truncate the buffer it shares with its parent
+    p = _c15_seq([[1, 2], [3], [4, 5, 6]])
+    v = p[:1]
+    v.shrink_data()
+    return [len(np.asarray(x)) for x in p] != [2, 1, 3]
+
+
+def S_C15h():
+    # concatenate(axis=1) of sliced views must join the views' own elements
+    from nibabel.streamlines.array_sequence import concatenate
+    p = _c15_seq([[1, 2], [3], [4, 5, 6]])
+    q = _c15_seq([[10, 20], [30], [40, 50, 60]])
+    try:
+        c = concatenate([p[1:], q[1:]], axis=1)
+    except ValueError:
+        return True
+    got = [np.asarray(x).tolist() for x in c]
+    return got != [[[3, 3, 30, 30]], [[4, 4, 40, 40], [5, 5, 50, 50], [6, 6, 60, 60]]]
+
+
+def S_C15i():
+    # every append of a cached build must check the trailing shape
+    from nibabel.streamlines.array_sequence import ArraySequence
+    s = ArraySequence()
+    s.append(np.ones((2, 2)), cache_build=True)
+    try:
+        s.append(np.full((1, 1), 5.), cache_build=True)
+    except ValueError:
+        return False
+    return True
+
+
 def S_C16d():
     from nibabel.streamlines import TrkFile, Tractogram
     z = 1.000005
